@@ -78,6 +78,7 @@ def applyTok (n : Nat) (s : St) (tok : String) : Option St :=
     -- I<children>: b body, s subject, l legacy x, u unrelated, m / M muc#user x with an invitation, d decline
     (mapM? parseChild r).bind fun cs => step s (.message cs)
   | ['N'] => step s .unrelated
+  | 'Z' :: _ => step s .unrelated   -- a late error reply to a join / leave that has already returned
   | '?' :: r => chk (String.ofList r == bits n s) s
   | _ => none
 
